@@ -8,6 +8,7 @@ import (
 	"net/http"
 	"os"
 	"path/filepath"
+	"runtime/debug"
 	"sort"
 	"strconv"
 	"strings"
@@ -30,6 +31,10 @@ type Env struct {
 	cur    *runCtx
 	logs   []string
 	broken bool
+	// recycled wire buffers of the fake connection (see Result.Release) and the oracle's body
+	// scratch buffer
+	wires   [][]byte
+	scratch []byte
 }
 
 type capLogger struct{ e *Env }
@@ -71,6 +76,10 @@ func GetEnv() *Env {
 		return theEnv
 	}
 	e := &Env{}
+	// every run allocates (and drops) up to a few hundred KiB of fresh buffers by design of the
+	// tracking allocator; with the default GC pacing the collector would run every handful of
+	// cases on a tiny live heap
+	debug.SetGCPercent(1500)
 	e.Engine = nbhttp.NewEngine(nbhttp.Config{
 		Name:              "verif",
 		Handler:           http.HandlerFunc(e.serve),
@@ -104,6 +113,24 @@ func (e *Env) serve(w http.ResponseWriter, r *http.Request) {
 		return
 	}
 	rc.runProgram(w)
+}
+
+func (e *Env) getWire() []byte {
+	if n := len(e.wires); n > 0 {
+		w := e.wires[n-1]
+		e.wires = e.wires[:n-1]
+		return w[:0]
+	}
+	return make([]byte, 0, 4<<10)
+}
+
+// Release hands the wire buffer of a finished result back for reuse; the result's Wire must
+// not be used afterwards. Optional (an unreleased buffer is garbage collected).
+func (r *Result) Release(e *Env) {
+	if r.Wire != nil && cap(r.Wire) >= 64<<10 && len(e.wires) < 8 && !r.Hang {
+		e.wires = append(e.wires, r.Wire)
+	}
+	r.Wire = nil
 }
 
 // TakeLogs returns and clears the error log lines captured since the last call.
@@ -376,7 +403,7 @@ func (e *Env) Run(prog Program, opt RunOpt, keepDump bool) *Result {
 	t := track.New(opt.Policy)
 	t.MoveOnGrow = opt.Move
 	out.T = t
-	conn := &Conn{T: t, FailAt: opt.FailAt}
+	conn := &Conn{T: t, FailAt: opt.FailAt, Wire: e.getWire()}
 	hc := &nbhttp.Conn{}
 	switch prog.Conn {
 	case "", ConnPlain:
